@@ -35,6 +35,10 @@ def obs_to_coq(o):
         return "ODie %s" % nat(o["s"])
     if k == "lclose":
         return "OLClose"
+    if k == "rawconnect":
+        return "ORawConnect"
+    if k == "handshakedone":
+        return "OHandshakeDone"
     if k == "lclosecall":
         return "OLCloseCall"
     if k == "rawclose":
@@ -178,11 +182,46 @@ def source_frame_check():
     return bad
 
 
+def listen_loop_shape():
+    """Source-shape tie for the accept path: in listenLoop, AFTER `Server(conn, DefaultConfig())` returns, the
+    closed-test `atomic.LoadUint32(&l.closed) == 1` and the insert `l.sessions[session] = wg` sit in the same
+    l.mu region.  Returns (kind, text): kind None = ok, "shape" = not recognised, "hard" = positively different."""
+    try:
+        src = open(os.path.join(core.REPO, "net_listener.go")).read()
+    except OSError as ex:
+        return "shape", "cannot read net_listener.go: %s" % ex
+    body = func_body(src, "func (l *listener) listenLoop()")
+    if body is None:
+        return "shape", "cannot find listenLoop"
+    ps = body.find("Server(conn, DefaultConfig())")
+    pi = body.find("l.sessions[session] = wg")
+    if ps < 0 or pi < 0 or pi < ps:
+        return "shape", "cannot find the handshake call followed by the registration in listenLoop"
+    pl = body.rfind("l.mu.Lock()", ps, pi)
+    test = "atomic.LoadUint32(&l.closed) == 1"
+    if pl >= 0 and test in body[pl:pi]:
+        # between that Lock and the insert the only Unlock allowed is the one of the rejecting branch (followed by return)
+        region = body[pl:pi]
+        unlocks = [m.start() for m in re.finditer(r"l\.mu\.Unlock\(\)", region)]
+        for u in unlocks:
+            if "return" not in region[u:]:
+                return "hard", "l.mu is released between the closed-test and the registration"
+        return None, ""
+    if test in body[:ps] or (pl < 0 and test in body[ps:pi]) or test not in body[ps:pi]:
+        return "hard", "the closed-test is not in the l.mu region of the registration after the handshake (listener.Close can fall between them)"
+    return "shape", "unrecognised arrangement of the closed-test and the registration"
+
+
 def check(run):
     data, gerr = gen.regenerate()
     if gerr:
         run.add_corr_break("G: " + gerr)
     run.proof = core.proof_step(PROP, run.tier)
+    kind, text = listen_loop_shape()
+    if kind == "shape":
+        run.add_corr_break("G: accept path of listenLoop: " + text, shape=True)
+    elif kind == "hard":
+        run.add_corr_break("G: accept path of listenLoop differs from the model (SessionUp = closed-test + registration in one critical section after the handshake): " + text)
     for v in source_frame_check():
         run.add_corr_break("G: frame property of Read/Write (C19_io_read_frame / _write_frame) not matched by the source: " + v, shape=v.startswith("cannot find"))
     n = 40 if run.tier == "quick" else 1200
